@@ -1,11 +1,13 @@
 import Gengo.Basic.Proto
 import Gengo.Driver.Tags
+import Gengo.Driver.JsonTag
 open Gengo Gengo.Proto
 
 def dispatch (f : List Str) : Str :=
   match f with
   | c :: rest =>
     if c = str "tags" then Driver.Tags.handle rest
+    else if c = str "json" then Driver.JsonTag.handle rest
     else str "bad-op"
   | _ => str "bad-op"
 
